@@ -156,6 +156,9 @@ func (it *Interp) opaqueOfType(t types.Type, tag string) Val {
 			return &Native{Kind: "float", Data: 0.0}
 		}
 	case *types.Pointer:
+		if namedString(u.Elem()) == "github.com/cosmos/cosmos-sdk/types/errors.Error" {
+			return &Native{Kind: "error", Data: &ErrData{registered: true, desc: tag}, Tag: tag}
+		}
 		return Ptr(newVal(it.opaqueOfType(u.Elem(), tag)))
 	case *types.Struct:
 		return &Native{Kind: "opaque", Tag: t.String() + "@" + tag}
